@@ -8,6 +8,7 @@ freshly loaded from the same rows in a fresh world; outcomes must be equal.  No 
 cutplace is involved.
 """
 import copy
+import re
 
 from sim import core, lib, simfs
 
@@ -58,7 +59,7 @@ def _cid_rows(spec):
         rows.append(["f", "name", "", "", "2", "Text", ""])
     else:
         rows.append(["d", "line delimiter", spec.get("line_delimiter", "lf")])
-        rows.append(["d", "encoding", "utf-8"])
+        rows.append(["d", "encoding", spec.get("encoding", "utf-8")])
         rows.append(["f", "id", "", "", "", "Integer", "0%s%s" % (sep, "99999" if spec.get("big") else "9")])
         rows.append(["f", "name", "", "", "1%s2" % sep, "Text", ""])
     if spec.get("allowed"):
@@ -83,6 +84,10 @@ def generate(seed, tier):
             "line_delimiter": swarm.choice(["lf", "lf", "any", "any", "crlf"])}
     # with 'allowed characters' declared a value may be rejected for a character; data sets share such characters
     spec["allowed"] = swarm.random() < 0.3
+    if fmt == "delimited" and swarm.random() < 0.2:
+        # an encoding that cannot store every character that passes validation: writing such a row to a path fails
+        # after the checks have seen it, reading such a file fails when it is decoded
+        spec["encoding"] = "ascii"
     letters = ["a", "b", "c", "\u00fc"] if swarm.random() < 0.4 else ["a", "b", "c"]
     datasets = {}
     for name in "ABC"[: swarm.randint(1, 3)]:
@@ -132,7 +137,12 @@ def generate(seed, tier):
                              {"op": "write", "data": "B", "close": True, "target": "stream"}])]
     # under 'any' every stored data set may use its own line ending
     eols = {name: swarm.choice(["\n", "\r\n", "\r"]) for name in names}
-    return {"io": simfs.IoConfig.draw(swarm), "cid": spec, "datasets": datasets, "ops": ops, "eols": eols,
+    io_config = simfs.IoConfig.draw(swarm)
+    if spec.get("encoding") == "ascii":
+        # how many rows come out in front of an undecodable byte depends on the chunk schedule, which differs between
+        # the shared and the fresh world: with whole-file reads it is the same in both
+        io_config = dict(io_config, regime="whole", bufsize=None, textchunk=None)
+    return {"io": io_config, "cid": spec, "datasets": datasets, "ops": ops, "eols": eols,
             "idle_reader_dropped_in": rng.randrange(len(ops)) if swarm.random() < 0.15 else None}
 
 
@@ -279,6 +289,11 @@ class _World(object):
             else:
                 self.keep.append(run)
             outcome = run.outcome()
+            for key in ("raised", "closed"):
+                # where inside its current chunk a decoder met the byte it cannot decode depends on the chunk schedule
+                # (which differs between the two worlds), not on the Cid
+                if isinstance(outcome.get(key), dict) and outcome[key].get("is_format_error") and outcome[key].get("message"):
+                    outcome[key]["message"] = re.sub(r"in position \d+", "in position N", outcome[key]["message"])
             outcome["abandoned"] = not run.finished
             if steps == 0:
                 outcome["counters"] = None  # the judged pass never started: the counters are not about it
